@@ -5,27 +5,28 @@ from props.common import boot_ops, brokers, fp, rand_bytes, rand_topic
 
 SLICE = "fetch Response/Topic/Partition/MessageSet::from_slice decoding (plain, gzip, xerial snappy, nested) behind KafkaClient::fetch_messages"
 RULE = ("message sets are built from generated entries with the independent encoder (kproto) and delivered as the broker's fetch reply "
-        "(one reply = 1-3 topics x 1-3 partitions, each partition its own layout, requested offset, high-watermark and truncation point); "
-        "(a) a fixed list of 14 small layouts (plain, gzip, snappy with 1..n xerial chunks, two wrappers, wrapper+plain, plain below the "
-        "requested offset + wrapper, depth-2 nesting, and two layouts of the known class) is truncated at EVERY byte position 0..len for 2-3 "
-        "requested offsets each; (b) random layouts: 1-6 batches of 1-4 messages over {plain, gzip, snappy} with offset gaps, null/empty/"
-        "binary keys and values (a few multi-KiB), snappy chunk sizes 1..len, copy elements on/off, requested offset at a batch start, "
-        "inside the first batch, below, or at the end, cut at a sampled position (entry boundaries +-1, inside headers, random) or not at all; "
-        "about 15% of the random layouts put a qualifying plain message in front of a complete wrapper (known class C02-wrapper-not-first); "
-        "(c) a share of cases is served by the reference broker itself (serve_fetch + max_bytes, up to 3 brokers) instead of a scripted reply; "
-        "non-trivial = a fetch whose reply carried at least one complete message at or above the requested offset or a truncated tail")
+        "(one reply = 1-3 topics x 1-3 partitions, each partition with its own layout, requested offset, high-watermark and truncation "
+        "point); (a) a fixed list of 14 small layouts (plain, plain with an offset gap, gzip, snappy with 1..n xerial chunks incl. 1-byte "
+        "chunks, two wrappers, wrapper+plain, wrapper+plain+wrapper, plain below the requested offset + wrapper, two depth-2 nestings, two "
+        "layouts of the known class) is truncated at EVERY byte position 0..len, for 1-2 requested offsets each (thorough: every offset from "
+        "first-1 to last+1); (b) random layouts: 1-6 batches of 1-4 messages over {plain, gzip, snappy} with offset gaps, offsets up to "
+        "2^62, null/empty/binary keys and values (4%: 0.3-1.5 KiB values), snappy chunk sizes 1..4096 with and without copy elements, "
+        "requested offset at a batch start, inside the first batch (inner offsets below it), in a gap, below the log or at its last message, "
+        "empty sets; cut at a sampled position (entry boundaries +-1, inside the 12-byte entry header and the fixed fields, uniform) or not "
+        "at all; in a third of the cases 40% of the layouts put a plain message at or above the requested offset in front of a complete "
+        "wrapper (known class C02-wrapper-not-first, ~15% of all random layouts); (c) cases answered by the reference broker itself "
+        "(serve_fetch + max_bytes, 1-3 brokers, plain or wrapper-only logs) instead of a scripted reply. non-trivial = a case with a fetch whose reply carried a complete message at or "
+        "above the requested offset or a truncated tail")
 ASSUMPTIONS = ["tools/kproto.py encodes message sets, gzip members and xerial-framed snappy as a conforming 0.8/0.9 broker stores them "
                "(inner offsets absolute, wrapper offset = last inner offset)"]
 EXHAUSTIVE = False
 
 KNOWN = "C02-wrapper-not-first:"
-FREED = "C02-nested-freed-buffer:"
-# Depth-2 nesting makes the real decoder return views into a buffer it has just freed (MessageSet::from_vec keeps the outer
-# vector and drops the inner one the messages point into). What is exposed then depends on the allocator: the bytes of ANOTHER
-# partition or heap pointers show up (witness corpus/known/C02-nested-freed-buffer.json). The model has no such behaviour, so every
-# affected case is also a model/implementation disagreement. While NESTED_DEPTH2 is False the generator never lets the decoder
-# complete a descent into a second-level wrapper: such layouts are delivered only cut inside their outer wrapper.
-NESTED_DEPTH2 = False
+# Depth-2 nesting used to make the decoder return views into a buffer it had just freed (MessageSet::from_vec kept the outer vector
+# and dropped the inner one the messages point into; witness corpus/known/C02-nested-freed-buffer.json, repaired in /repo by a
+# `fix:` commit). Complete depth-2 descents are generated freely; set NESTED_DEPTH2 = False to deliver such layouts only cut inside
+# their outer wrapper.
+NESTED_DEPTH2 = True
 
 
 # ---- layouts ---------------------------------------------------------------------------------------------
@@ -167,7 +168,7 @@ KINDS = [("plain", 22), ("wrappers", 28), ("wrap_then_any", 12), ("below_then_wr
 def rand_layout(rng, kind=None, big=False, known_ok=True):
     """-> (kind, entries, requested offset)"""
     if kind is None:
-        kinds = [(k, (w * 3 if k == "known" else w)) for k, w in KINDS if known_ok or k != "known"]
+        kinds = [(k, (w * 4 if k == "known" else w)) for k, w in KINDS if known_ok or k != "known"]
         r = rng.random() * sum(w for _, w in kinds)
         for kind, w in kinds:
             r -= w
@@ -403,6 +404,9 @@ def gen(rng, tier):
     jobs = []
     for name, entries, chunk, reqs in small_layouts():
         data, lens = encode_layout(entries, chunk)
+        if not quick:
+            offs = [o for (o, _, _) in kproto.flatten_entries(entries)]
+            reqs = list(range(max(0, offs[0] - 1), offs[-1] + 2))       # every offset from just below the first to just above the last
         for req in reqs:
             for cut in range(len(data) + 1):
                 job = admit(rng, ("small:" + name, entries, req, cut, chunk, False))
@@ -413,13 +417,11 @@ def gen(rng, tier):
     # (b) random layouts
     for _ in range(620 if quick else 9000):
         jobs = []
-        known_ok = rng.random() < 0.3          # layouts of the known class are concentrated in 30% of the cases
+        known_ok = rng.random() < 0.35         # layouts of the known class are concentrated in a third of the cases
         for _ in range(rng.randint(10, 40)):
             big = rng.random() < 0.04
             kind, entries, req = rand_layout(rng, big=big, known_ok=known_ok)
             chunk = None if rng.random() < 0.5 else rng.choice([1, 2, 7, 16, 31, 64, 200]) if not big else rng.choice([64, 500, 4096])
-            if chunk == 1 and sum(lens) > 400:
-                chunk = 13
             copies = rng.random() < 0.4
             data, lens = encode_layout(entries, chunk, copies)
             jobs.append(admit(rng, (kind, entries, req, sample_cut(rng, lens), chunk, copies)))
@@ -459,15 +461,8 @@ def check_partition(m, got, fails):
         fails.append("C02: %s: high-watermark %d exposed, %d sent" % (where, hw, m["hw"]))
     bad = violation(ex, complete, req)
     if bad:
-        pred = known_defect_prediction(complete, req)
-        shape = lambda xs: [(o, len(k), len(v)) for (o, k, v) in xs]
-        if in_known_class(complete, req) and ex == pred:
-            cls = KNOWN
-        elif descends_two_levels(complete) and ex != pred and shape(ex) == shape(pred):
-            cls = FREED        # offsets and lengths as decoded, contents are whatever the freed buffer holds now
-        else:
-            cls = "C02:"
-        fails.append("%s %s: %s" % (cls, where, bad))
+        known = in_known_class(complete, req) and ex == known_defect_prediction(complete, req)
+        fails.append("%s %s: %s" % (KNOWN if known else "C02:", where, bad))
 
 
 def oracle(case, recs, cl):
@@ -514,14 +509,13 @@ def oracle(case, recs, cl):
         if extra:
             fails.append("C02: result names partitions that were not in the reply: %s" % extra[:3])
     # report each class once, the unknown ones first
-    fails.sort(key=lambda f: f.startswith(KNOWN) + 2 * f.startswith(FREED))
-    seen, out = set(), []
-    for f in fails:                      # one line per class of known finding, every other failure in full
-        c = f.split()[0]
-        if c in (KNOWN, FREED):
-            if c in seen:
+    fails.sort(key=lambda f: f.startswith(KNOWN))
+    out, seen = [], False
+    for f in fails:                      # one line for the known class, every other failure in full
+        if f.startswith(KNOWN):
+            if seen:
                 continue
-            seen.add(c)
+            seen = True
         out.append(f)
     fails = out
     return fails[:8]
